@@ -5,6 +5,8 @@ ENGINES = [
      'kind_free_text': 'whole-crate call graph (fn items as values and closures are edges, CHA for unresolved trait calls) and transitive effect sets'},
     {'name': 'E3 bit-precise evaluator', 'path': 'analysis/bits.py rules/layout.py', 'serves_properties': ['C04', 'C12'],
      'kind_free_text': 'integers as vectors of bits, each bit a truth table over <= 8 named input bits; byte arrays at constant offsets; loop-free code only'},
+    {'name': 'E4 relational abstract interpreter', 'path': 'analysis/interp.py analysis/lin.py analysis/e4.py', 'serves_properties': ['C01', 'C18'],
+     'kind_free_text': 'abstract interpretation of MIR over linear constraints between immutable symbols; entailment by Fourier-Motzkin with gcd tightening; summaries with bad-region lifting; weak join, widening with thresholds, progress-ratio candidates; post-fixpoint ranking search'},
     {'name': 'E2 event automata', 'path': 'analysis/cfg.py analysis/pkt.py', 'serves_properties': ['C03', 'C08', 'C09', 'C10', 'C11'],
      'kind_free_text': 'forward data-flow of (automaton state, known enum variants) over the MIR CFG with per-callee summaries; keeps Ok/Err outcomes apart until the ? has branched'},
 ]
@@ -108,5 +110,24 @@ CHECKS['C04'] = {
              '(d) the three question getters read type/class at (0,2)/(2,2) behind a position derived from the wire length of the name, never from its decompressed length. '
              'The three textual forms of the question name (loops over labels) are NOT decided.'),
     'note': 'Trusted: tables/rfc_layout.json and the bit specs, analysis/bits.py, rustc MIR.',
+}
+CHECKS['C01'] = {
+    'engine': 'E4 relational abstract interpreter + E1', 'level': 'proof',
+    'technique': 'relational numeric abstract interpretation of MIR (linear constraints, Fourier-Motzkin entailment, per-callee summaries with lifted preconditions, widening, automatic ranking functions) + effect analysis',
+    'design_ref': 'DESIGN.md section 4, C01',
+    'text': ('Proof of obligations for all byte strings / offsets / increments: in the validator call tree (about 45 bodies) there is no unsafe operation, recursion or indirect call; every potential panic '
+             '(about 175 Assert terminators and modelled preconditions: index < len, every add/sub overflow, slice ranges, read_u16, unwrap) is discharged by the interpreter or lifted to the entry point, where parse, new, '
+             'set_offset and both name checkers need no precondition and increment_offset / rr_rdlen / edns_rr_rdlen need only the struct invariant offset <= len /\\ (edns_end = None \\/ offset <= edns_end <= len); '
+             'every loop has a strictly increasing bounded measure (termination); nothing in the scope writes DNSSector.packet and parse moves it into the result. Unmodelled constructs fail closed.'),
+    'note': 'Trusted: the ~45 std/byteorder contracts in analysis/interp.py, the linear domain (analysis/lin.py), rustc MIR. Assumes callers do not poke the pub fields of DNSSector into states violating the invariant.',
+}
+CHECKS['C18'] = {
+    'engine': 'E4 relational abstract interpreter', 'level': 'proof',
+    'technique': 'automatic ranking functions with ranges from the relational abstract interpreter: constant bounds for per-name loops, buffer-relative bounds with a minimum step for the record/option loops',
+    'design_ref': 'DESIGN.md section 4, C18',
+    'text': ('Proof of loop bounds for every input: each per-name loop (both name walkers) has a constant iteration bound found automatically (name_len - refs_allowed in [-16,255] => <= 272; name_len <= 255 => <= 128); '
+             'the three section loops advance `offset` (<= len) by >= 11 bytes per iteration and the option loop is bounded; parse_rr / parse_question / skip_name are loop-free with a constant number of walk call sites. '
+             'Hence steps <= a*len + b (the derived formula is printed in the evidence). A per-name loop whose best measure is only bounded by the buffer length is reported as quadratic.'),
+    'note': 'Trusted: analysis/interp.py, analysis/lin.py, rustc MIR. The cost model counts loop iterations and label bytes, as the property does; no step-counter hook is needed.',
 }
 NOT_APPLICABLE = {('C%02d' % i): PENDING for i in range(1, 19) if ('C%02d' % i) not in CHECKS}
